@@ -11,6 +11,8 @@ state the needed command is on the wire of the current connection (shared with C
 Function level: _DeferredWormhole.closed/close (C18's tasks, run here too)."""
 from pyvc.mrun import ClusterTask
 
+from .mailbox_ready import CLUSTER_READY
+
 PROP = "C08"
 
 
@@ -21,7 +23,7 @@ def select(name):
 
 def tasks():
     import os
-    nocl = bool(os.environ.get('VERIF_NO_CLUSTER'))
+    nocl = (not CLUSTER_READY) or bool(os.environ.get('VERIF_NO_CLUSTER'))
     out = ([] if nocl else [ClusterTask("mailbox-cluster", "props.mailbox", "engine", select, "mailbox_history:search")])
     from . import c18
     out += [t for t in c18.tasks() if getattr(t, "contract", None) is not None and
